@@ -185,3 +185,60 @@ contract(
     from_property="stdout and stderr end up - completely and only - where the redirect operators say ... conflicting or malformed redirects are reported as errors "
                   "rather than silently misrouted (a normal return means every stream was named by at most one redirect of the stage, and holds exactly that one)",
 )
+
+
+# ---- safe_open: the one place a redirect target is opened - exactly the file named, once, in exactly the mode asked; every failure is a XonshError ----
+FILEH = Opaque("file")
+contract(
+    S + "safe_open", "C07", params=dict(fname=Str, mode=Str, buffering=Int), returns=FILEH,
+    externals={"open": Ext(ret=FILEH, event="open", log=0, log_type=Str, raises=["PermissionError", "FileNotFoundError", "OSError", "Exception+"],
+                           ensures=["opened_mode(result) == a1"], note="the builtin; may fail in any way"),
+               "opened_mode": Ext(ret=Str, pure=True, uf="opened_mode", args=[FILEH], note="ghost: the mode a handle was opened in")},
+    locals={"kwargs": Opaque("kwargs")},
+    abstract=[dict(line_contains='kwargs = {"encoding": "utf-8"}', may_raise=False, reason="utf-8 for text modes, nothing for binary ones (keyword pack)")],
+    raises={"XonshError": True}, emits=["open"],
+    ensures={"opens-exactly-the-file-named-once-in-exactly-the-mode-asked": "len(log('open')) == 1 and log('open')[0] == fname and opened_mode(result) == mode"},
+    ensures_exc={"a-failure-is-reported-as-a-XonshError-after-one-attempt-on-that-file (never another exception, never a silent None)":
+                 "len(log('open')) == 1 and log('open')[0] == fname"},
+    from_property="conflicting or malformed redirects are reported as errors rather than silently misrouted (a target that cannot be opened: permission, missing directory, anything else)",
+)
+
+
+# ---- _redirect_streams: one redirect operator -> (stdin, stdout, stderr) handles; the operator tables are ghost sets here (their content is what the
+# ---- spelling enum checks through the real tokenizer / parser), the STRUCTURE is proved: which stream gets a handle, how many opens, shared or not ----
+SENT = Opaque("pipe_sentinel")
+HSX = Union(NoneT, Int, FILEH, SENT)
+STRSET = VSet(Str)
+RS_G = {"_A2P_MAP": STRSET, "_E2P_MAP": STRSET, "_E2O_MAP": STRSET, "_O2E_MAP": STRSET, "_WRITE_MODES": STRSET, "_REDIR_ALL": STRSET, "_REDIR_OUT": STRSET,
+        "_REDIR_ERR": STRSET, "_PIPE_ALL": SENT, "_PIPE_ERR": SENT, "subprocess.STDOUT": -2}
+RS_EXT = {
+    "_parse_redirects": Ext(ret=Tuple(Str, Str, Str), pure=True, uf="parsed", note="(origin, mode, destination) of an operator: regular-expression match, covered by the spelling enum"),
+    "parsed": Ext(ret=Tuple(Str, Str, Str), pure=True, uf="parsed"),
+    "opened_mode": Ext(ret=Str, pure=True, uf="opened_mode", args=[FILEH]),
+}
+WRITES = "(parsed(r)[1] in _WRITE_MODES)"
+PLAIN = "(r not in _A2P_MAP and r not in _E2P_MAP and r.replace('&', '') not in _E2O_MAP and r.replace('&', '') not in _O2E_MAP)"
+contract(
+    S + "_redirect_streams", "C07", params=dict(r=Str, loc=Union(NoneT, Str)), globals=RS_G, externals=RS_EXT, returns=Tuple(HSX, HSX, HSX),
+    calls={"safe_open": S + "safe_open"},
+    config={"isinstance": {"list": ["seq", "list"]}},
+    requires={"a-target-is-given-where-one-is-opened": "implies(%s, loc is not None)" % PLAIN},
+    locals={"stdin": HSX, "stdout": HSX, "stderr": HSX},
+    raises={"XonshError": True}, emits=["open"],
+    ensures={
+        "pipe-and-merge-operators-open-nothing": "implies(not %s, len(log('open')) == 0)" % PLAIN,
+        "a>p-marks-stdout-for-the-pipe-and-merges-stderr-into-it": "implies(r in _A2P_MAP, result[0] is None and result[1] == _PIPE_ALL and result[2] == -2)",
+        "e>p-marks-stderr-for-the-pipe-and-leaves-stdout-alone": "implies(r not in _A2P_MAP and r in _E2P_MAP, result[0] is None and result[1] is None and result[2] == _PIPE_ERR)",
+        "e>o-merges-stderr-into-stdout-only": "implies(r not in _A2P_MAP and r not in _E2P_MAP and r.replace('&', '') in _E2O_MAP, result[0] is None and result[1] is None and result[2] == -2)",
+        "a-file-redirect-opens-exactly-its-target-once-in-the-operator's-mode": "implies(%s, len(log('open')) == 1 and log('open')[0] == loc)" % PLAIN,
+        "an-input-redirect-sets-stdin-only": "implies(%s and parsed(r)[1] == 'r', result[1] is None and result[2] is None and result[0] is not None and opened_mode(result[0]) == 'r')" % PLAIN,
+        "a-both-streams-redirect-gives-both-streams-the-SAME-handle":
+            "implies(%s and parsed(r)[1] != 'r' and parsed(r)[0] in _REDIR_ALL, result[0] is None and result[1] is not None and result[1] == result[2] and opened_mode(result[1]) == parsed(r)[1])" % PLAIN,
+        "an-stdout-redirect-sets-stdout-only": "implies(%s and parsed(r)[1] != 'r' and parsed(r)[0] not in _REDIR_ALL and parsed(r)[0] in _REDIR_OUT, "
+                                              "result[0] is None and result[2] is None and result[1] is not None and opened_mode(result[1]) == parsed(r)[1])" % PLAIN,
+        "an-stderr-redirect-sets-stderr-only": "implies(%s and parsed(r)[1] != 'r' and parsed(r)[0] not in _REDIR_ALL and parsed(r)[0] not in _REDIR_OUT, "
+                                              "result[0] is None and result[1] is None and result[2] is not None and opened_mode(result[2]) == parsed(r)[1])" % PLAIN,
+    },
+    ensures_exc={"an-unrecognised-operator-opens-nothing-or-the-open-failed": "len(log('open')) <= 1"},
+    from_property="stdout and stderr end up - completely and only - where the redirect operators say ... `a>`/`&>` both ... conflicting or malformed redirects are reported as errors",
+)
